@@ -1206,10 +1206,15 @@ class Engine:
             for nme, dflt in zip(names[len(names) - len(node.args.defaults):], node.args.defaults):
                 if nme not in dict(zip(names, args)) and nme not in kw:
                     local[nme] = self.eval(dflt, cenv)
+            nonlocals = [n for st in node.body for x in ast.walk(st) if isinstance(x, ast.Nonlocal) for n in x.names]
             try:
                 self.block(node.body, local)
             except _Return as r:
                 return r.val
+            finally:
+                for n in nonlocals:                # ``nonlocal`` names are rebound in the enclosing scope
+                    if n in local:
+                        cenv[n] = local[n]
             return None
         if isinstance(fn, tuple) and fn and fn[0] == "lambda":
             _, node, cenv = fn
@@ -1234,6 +1239,9 @@ class Engine:
             for a in args[1:]:
                 r = self.pymin(r, a)
             return r
+        if n == "divmod" and len(args) == 2:
+            q = self.floordiv(args[0], args[1])
+            return (q, self.mod(args[0], args[1]))
         if n == "len" and len(args) == 1:
             v = args[0]
             if isinstance(v, (tuple, list, dict, str)):
